@@ -65,7 +65,10 @@ def minimise(mode: str, hist: list[dict[str, str]], recheck: bool, cache_world: 
 
     def fails(h: list[dict[str, str]]) -> bool:
         if cache_world is not None:
-            # h[0] is the world the fine-grained cache was built from
+            # h[0] is the world the fine-grained cache was built from: it must stay error-free (see main), unless the
+            # original one was not (the single representative history of the lost-errors finding)
+            if fresh(mode, h[0])["status"] != 0 and fresh(mode, cache_world)["status"] == 0:
+                return False
             return len(h) > 1 and run_history(mode, h[1:], recheck, cache_world=h[0])[0] is not None
         return len(h) > 0 and run_history(mode, h, recheck)[0] is not None
 
